@@ -60,9 +60,9 @@ func run(c *vh.Ctx) error {
 	}
 
 	// ---- operation sequences ----------------------------------------------------------------------
-	nSeq := c.N(1100, 30000)
-	maxOps := c.N(80, 160)
-	tamperBudget := c.N(150, 3000)
+	nSeq := c.N(2500, 26000)
+	maxOps := c.N(80, 140)
+	tamperBudget := c.N(300, 3000)
 	if c.Search {
 		nSeq *= 2
 	}
@@ -110,7 +110,7 @@ func run(c *vh.Ctx) error {
 	}
 
 	// ---- DeriveSha ---------------------------------------------------------------------------------
-	nDS := c.N(120, 2000)
+	nDS := c.N(200, 2000)
 	for i := 0; i < nDS; i++ {
 		l := genDerive(c.R)
 		fl, _, e := rn.runSeq([]string{l})
@@ -129,7 +129,7 @@ func run(c *vh.Ctx) error {
 	}
 
 	// ---- malformed stream: hostile proof stores ----------------------------------------------------
-	nH := c.N(6000, 150000)
+	nH := c.N(12000, 150000)
 	for i := 0; i < nH; i++ {
 		l := genHostileVerify(c.R)
 		before := rn.cnt["rawverify-err"]
